@@ -135,6 +135,10 @@ def gen_pats(rng, exact, zero_ok, markers, nomatch=False):
             pats.append({'t': 'ex', 'p': p} if exact else {'t': 're', 'p': p + rng.choice(['', '+', '{2}'])})
         elif exact:
             pats.append({'t': 'ex', 'p': gen_exact(rng, zero_ok)})
+        elif rng.random() < 0.06:
+            # a compiled pattern with re.VERBOSE: white space and comments in its text are not part of what it matches
+            word = [rng.choice('abc') for _ in range(rng.choice([1, 2, 2, 3]))]
+            pats.append({'t': 're', 'p': rng.choice([' ', '  ', '\n']).join(word) + rng.choice(['', ' ', '  # x', ' #a']), 'fl': 'x'})
         else:
             pats.append({'t': 're', 'p': gen_regex(rng, zero_ok)})
     if rng.random() < 0.3 and len(pats) >= 2:
@@ -350,7 +354,11 @@ def generate(rng, profile='engine'):
         if api == 'expect' and len(op['pats']) == 1 and rng.random() < 0.5:
             op['single'] = True
         force_raw = op.pop('force_raw', False)
-        if api == 'expect' and (rng.random() < 0.5 or force_raw):
+        if any(pp.get('fl') for pp in op['pats']):
+            force_raw = False          # flags travel only with compiled patterns
+            if api == 'expect':
+                op['no_raw'] = True
+        if api == 'expect' and not op.pop('no_raw', False) and (rng.random() < 0.5 or force_raw):
             op['raw'] = True
             if rng.random() < 0.4:
                 op['same_list'] = True
@@ -563,6 +571,11 @@ def evaluate(r, clauses=None):
                 (kind == 'exc' and isinstance(val, TIMEOUT))
         is_eof = (kind == 'ret' and val == ei and ei >= 0 and call['after'] is EOF) or \
                  (kind == 'exc' and isinstance(val, EOF))
+        if is_to and call.get('ended_at_entry') is True and not call.get('async'):
+            # "when the stream ends ... EOF": the end of the stream was there to be seen before the call began
+            if V('C04.eof_missed', 'TIMEOUT reported although the peer had ended the stream and nothing was left unread when '
+                 'the call started', call):
+                return out
         if kind == 'exc' and not is_to and not is_eof:
             if isinstance(val, SimHang):
                 if seen_eof:
